@@ -28,7 +28,9 @@ import (
 type fuzzHook struct{ body []byte }
 
 func (h fuzzHook) IsEnabled() bool { return true }
-func (h fuzzHook) Call(_ interface{ GetRootObject() *unstructured.Unstructured }, response interface{}) error {
+func (h fuzzHook) Call(_ interface {
+	GetRootObject() *unstructured.Unstructured
+}, response interface{}) error {
 	_, err := kjson.UnmarshalStrict(h.body, response)
 	return err
 }
